@@ -4,7 +4,7 @@ from checks.c05 import f16_entry
 
 PROP = "C08"
 CONE = ["Server/ServerModel.v", "Server/ServerProofs.v", "Server/ServerProofs2.v", "Props/C08.v", "Dic/RestoreProofs.v", "Dic/TextFormatProofs.v"]
-THEOREMS = ["C08_restore_filter", "C08_idempotent", "C08_synced_invariant", "C08_restart_exact", "C08_produced_entries_printable", "C08_every_entry_printable_refuted"]
+THEOREMS = ["C08_restore_filter", "C08_idempotent", "C08_synced_invariant", "C08_restart_exact", "C08_produced_entries_printable", "C08_every_entry_printable_refuted", "C08_nonkana_reading_refuted"]
 
 
 def gen_c08_history(rnd):
@@ -37,9 +37,13 @@ def predicate(res, hr):
                 res.violation("learned frequencies differ after the restart", {"base": hr.base, "requests": hr.requests, "before": b["frequencies"], "after": a["frequencies"]})
             if b["user_entries"] != a["user_entries"]:
                 lost = [l for l in b["user_entries"] if l not in a["user_entries"]]
-                if lost and all(f16_entry(l) for l in lost) and [l for l in b["user_entries"] if l not in lost] == a["user_entries"]:
-                    known = True
-                    res.known("F16", "a guessed entry with an empty stem (word = a bare ending such as い) is convertible until the restart and lost afterwards")
+                f20 = lambda l: len(l.split("\t")) >= 3 and l.split("\t")[0] != "" and any(c not in ALPHABET for c in l.split("\t")[0])
+                if lost and all(f16_entry(l) or f20(l) for l in lost) and [l for l in b["user_entries"] if l not in lost] == a["user_entries"]:
+                    if any(f16_entry(l) for l in lost):
+                        known = True
+                        res.known("F16", "a guessed entry with an empty stem (word = a bare ending such as い) is convertible until the restart and lost afterwards")
+                    if any(f20(l) and not f16_entry(l) for l in lost):
+                        res.known("F20", "a registered word whose reading has a character outside the text format's reading class is saved, skipped when user.dic is read back, and gone after the restart (it was never convertible)")
                 else:
                     res.violation(f"user entries differ after the restart: before {b['user_entries']} after {a['user_entries']}", {"base": hr.base, "requests": hr.requests})
             if b["frequencies"] and any("\t/" in l and not l.endswith("名詞/") for l in b["user_entries"]):
@@ -82,6 +86,11 @@ def run(tier, seed):
         rq = [{"kind": "register", "wkind": k, "reading": r, "word": w} for (r, w), k in zip(regs, kinds)]
         rq += [dict(q, probe="before") for q in pq] + [{"kind": "restart"}] + [dict(q, probe="after") for q in pq] + [{"kind": "restart"}] + [dict(q, probe="after") for q in pq]
         items.append((hb, rq))
+    # readings outside the dictionary alphabet (never convertible): known finding F20 - they vanish at the restart, no answer changes
+    items.append((hb, [{"kind": "register", "wkind": k, "reading": r, "word": w} for k, r, w in
+                       (("CommonNoun", "１２３", "数"), ("ProperNoun", "カタカナ", "片仮名"), ("CommonNoun", "はし漢", "混"), ("CommonNoun", "ｱ", "半"), ("CommonNoun", "はしご", "梯子"))]
+                  + [dict(q, probe="before") for q in pq] + [{"kind": "convert", "input": "はしご", "context": "Normal", "probe": "before"}, {"kind": "restart"}]
+                  + [dict(q, probe="after") for q in pq] + [{"kind": "convert", "input": "はしご", "context": "Normal", "probe": "after"}]))
     runs = run_histories(items, threads=12)
     nontrivial = sum(1 for hr in runs if predicate(res, hr))
     n_model = model_histories(res, PROP, runs)
